@@ -29,6 +29,8 @@ import (
 	"syscall"
 	"time"
 
+	"github.com/cloudwego/eino/callbacks"
+
 	"verif/harness/lib"
 )
 
@@ -69,11 +71,12 @@ func (engine) CoqHeader() string {
 }
 func (engine) CoqCaseType() string { return "ccase" }
 
-var kinds = []string{"pregel", "dag", "workflow", "chain", "state", "nested", "tools", "react", "host"}
+var kinds = []string{"pregel", "dag", "workflow", "chain", "state", "nested", "tools", "react", "host", "ckpt", "comp", "reent", "multi", "embed"}
 
 var builders = map[string]func(*lib.Rng, *zoo) (*object, error){
 	"pregel": buildPregel, "dag": buildDag, "workflow": buildWorkflow, "chain": buildChain, "state": buildState,
 	"nested": buildNested, "tools": buildTools, "react": buildReact, "host": buildHost,
+	"ckpt": buildCkpt, "comp": buildComp, "reent": buildReent, "multi": buildMulti, "embed": buildEmbed,
 }
 
 func (engine) Generate(r *lib.Rng, tier string, i int) any {
@@ -83,8 +86,15 @@ func (engine) Generate(r *lib.Rng, tier string, i int) any {
 		c.PerG = r.Range(2, 3)
 		c.K = r.Range(3, 8)
 	} else {
-		c.G = 8
-		c.PerG = r.Range(2, 4)
+		// 8, 16 or 32 callers; about 24-40 concurrent calls per case
+		switch r.Intn(4) {
+		case 0:
+			c.G, c.PerG = 32, 1
+		case 1:
+			c.G, c.PerG = 16, 2
+		default:
+			c.G, c.PerG = 8, r.Range(2, 4)
+		}
 		c.K = r.Range(3, 6)
 	}
 	return c
@@ -221,10 +231,22 @@ func (engine) Run(ci any) lib.Result {
 	raceBefore := raceBytes()
 	r := lib.NewRng(c.Seed)
 	z := &zoo{sched: c.Sched, force: c.Force}
-	var obj *object
+	// The same object is built twice from the same seed: [obj] gives the solo reference,
+	// [fresh] is called for the first time by all concurrent callers at once (lazily
+	// initialised shared structures are then first touched under concurrency) and is
+	// called alone again afterwards (what the concurrent phase left behind in it).
+	var obj, fresh *object
 	var berr error
-	if p := lib.Recover(func() { obj, berr = builders[c.Kind](r, z) }); p != nil {
+	if p := lib.Recover(func() {
+		obj, berr = builders[c.Kind](r, z)
+		if berr == nil {
+			fresh, berr = builders[c.Kind](lib.NewRng(c.Seed), z)
+		}
+	}); p != nil {
 		berr = fmt.Errorf("panic while building: %v", p)
+	}
+	if berr == nil && strings.Join(obj.shape, ",") != strings.Join(fresh.shape, ",") {
+		berr = fmt.Errorf("builder is not deterministic: %v vs %v", obj.shape, fresh.shape)
 	}
 	if berr != nil {
 		return lib.Result{Obs: Obs{Class: "builderr", Msg: berr.Error()}, Oracle: "zoo object could not be built/compiled: " + berr.Error(),
@@ -248,6 +270,7 @@ func (engine) Run(ci any) lib.Result {
 		specs = c.Specs
 	}
 	ctxPlain, ctxH := obj.baseCtx(false), obj.baseCtx(true)
+	fctxPlain, fctxH := fresh.baseCtx(false), fresh.baseCtx(true)
 	tagNo := 0
 	next := func() int { tagNo++; return tagNo }
 
@@ -301,13 +324,28 @@ func (engine) Run(ci any) lib.Result {
 			<-start
 			for k := 0; k < c.PerG; k++ {
 				j := g*c.PerG + k
-				outs[j] = doCall(obj, ctxPlain, ctxH, specs[assign[j]], assign[j], j, firstTag+1+j)
+				outs[j] = doCall(fresh, fctxPlain, fctxH, specs[assign[j]], assign[j], j, firstTag+1+j)
 			}
 		}(g)
 	}
 	close(start)
 	wg.Wait()
 	time.Sleep(2 * time.Millisecond) // stragglers (sender goroutines of fake streams) finish
+	tagNo = firstTag + total
+
+	// after the storm: every spec once more, alone, on the object the concurrent calls used
+	for i, sp := range specs {
+		a := doCall(fresh, fctxPlain, fctxH, sp, i, -1, next())
+		if a.res != soloRes[i] {
+			fail("after-differs", fmt.Sprintf("spec %s alone AFTER the concurrent phase returned %q, %q on an untouched copy of the object", sp, clip(a.res), clip(soloRes[i])))
+		}
+		if strings.Join(a.rc.eventNames(), "\x00") != strings.Join(soloEv[i], "\x00") {
+			fail("after-events-differ", fmt.Sprintf("spec %s alone AFTER the concurrent phase: events differ from an untouched copy: %s", sp, evDiff(soloEv[i], a.rc.eventNames())))
+		}
+		for _, v := range a.rc.viol {
+			fail("cross-call", "after "+sp.String()+": "+v)
+		}
+	}
 
 	// direct oracle: every concurrent call = its spec alone
 	usedSpecs := map[int]bool{}
@@ -516,5 +554,7 @@ func reexecWithRaceExit0() {
 
 func main() {
 	reexecWithRaceExit0()
+	// a process-wide handler, registered once before anything runs (the documented use)
+	callbacks.AppendGlobalHandlers(sharedHandler("G"))
 	lib.Main(engine{})
 }
